@@ -226,7 +226,7 @@ class Engine:
         ret = self.rets.get(key, BOT)
         if key in self.inprogress: return ret
         m = self.memo.get(key)
-        if m is not None and old is not None and all(a == b for a, b in zip(args, old)) and all(self.mem.root_epoch.get(rt, 0) <= m[0] for rt in m[1]) and self.mem.kills.get(key) == m[2]:
+        if m is not None and old is not None and (len(m) < 4 or m[3]) and all(a == b for a, b in zip(args, old)) and all(self.mem.root_epoch.get(rt, 0) <= m[0] for rt in m[1]) and self.mem.kills.get(key) == m[2]:
             self.mem.reading[-1] |= m[1]; self.stats['reuse'] += 1
             return ret
         self.stats['runs'] += 1
@@ -239,20 +239,22 @@ class Engine:
         if defs:
             self.defseq[key] = {}; self.mem.killnow[key] = {}
             self.mem.active.add(key); self.owner = key
+        local_changed = False       # a value of this very instance changed during this run: loop-carried phis may not have settled,
+                                    # the instance must be run again even if its arguments and the memory it reads are unchanged
         for b in f['blocks']:
             for i in b['insts']:
                 r = self.transfer(u, f, fi, ctx, fname, i, args)
                 if i['op'] == 'ret':
                     if i['ops']:
                         nr = ret.join(self.val(ctx, fname, i['ops'][0], args))
-                        if not (nr == ret): ret = nr; self.gchanged = True
+                        if not (nr == ret): ret = nr; self.gchanged = True; local_changed = True
                     continue
                 if r is None: continue
                 k = (ctx, fname, i['id']); o = self.vals.get(k)
                 n = r.join(o) if o is not None else r
                 if len(n.ptrs) > 6: n = self.widen(n)
                 if o is None or not (n == o):
-                    self.vals[k] = n; self.gchanged = True
+                    self.vals[k] = n; self.gchanged = True; local_changed = True
                     if self.mem.trace: print('VALCHG', fname, i['id'], i['op'], i.get('line'), len(n.ptrs), sorted(n.labels))
         self.inprogress.discard(key)
         if defs:
@@ -265,7 +267,7 @@ class Engine:
                 if self.mem.trace: print('KILLCHG', key[1], len(K))
         self.owner = saved_owner
         reads = self.mem.reading.pop(); self.mem.reading[-1] |= reads
-        self.memo[key] = (start_epoch, reads, self.mem.kills.get(key))
+        self.memo[key] = (start_epoch, reads, self.mem.kills.get(key), not local_changed)
         self.rets[key] = ret
         self.done[key] = (self.mem.epoch,)
         return ret
